@@ -44,6 +44,7 @@ struct Config {
     std::vector<ScriptStep> script;
     bool op_boundaries = false;         // operation boundaries are scheduling points (set for scripted plans and their replays alike)
     uint64_t step_budget = 2000000;
+    int sig_rate = 0;                   // percent of blocking sem_wait() calls that a signal interrupts (-1/EINTR, semaphore not taken)
     bool keep_sync_state = false;       // the main thread already made library calls since reset_library_globals() (object handoff)
 };
 
@@ -54,6 +55,7 @@ struct Result {
     std::vector<Race> races;
     bool deadlock = false, budget_exceeded = false, shadow_overflow = false;
     uint64_t write_shared_locations = 0;   // bytes written by one thread and touched by another
+    uint64_t sem_eintr = 0;             // blocking sem_wait() calls interrupted by a simulated signal
     uint64_t sync_ops = 0, atomic_ops = 0, pseudo_writes = 0, spin_yields = 0;
     std::string abort_what;
     size_t stack_used_max = 0; int stack_used_thread = -1;    // deepest stack use of a worker below its thread function (bytes; saturates at 256 KiB)
